@@ -7,3 +7,4 @@ pub mod r3;
 pub mod r4;
 pub mod r9;
 pub mod r5;
+pub mod r10;
